@@ -5,6 +5,7 @@ go 1.19
 require (
 	github.com/aml-org/amf-custom-validator v0.0.0
 	github.com/open-policy-agent/opa v0.47.0
+	gopkg.in/yaml.v3 v3.0.1
 )
 
 require (
@@ -21,7 +22,6 @@ require (
 	github.com/xeipuuv/gojsonreference v0.0.0-20180127040603-bd5ef7bd5415 // indirect
 	github.com/yashtewari/glob-intersection v0.1.0 // indirect
 	gopkg.in/yaml.v2 v2.4.0 // indirect
-	gopkg.in/yaml.v3 v3.0.1 // indirect
 )
 
 replace github.com/aml-org/amf-custom-validator => /repo
